@@ -391,7 +391,8 @@ Definition after_read (c : config) (m : mstate) (first : bool) : mstate * res (N
   let force := first && negb advertised && negb (has (m_bits m) st_Secure) in
   match (if force then find_space ns_StartTLS (c_feats c) else None) with
   | Some f =>
-      if f_neg f then init_loop 1 c m (Some f)          (* startTLS.Negotiate != nil *)
+      if f_neg f && eligible f (m_bits m)               (* startTLS.Negotiate != nil && startTLS.allowed(s.state) *)
+      then init_loop 1 c m (Some f)
       else normal_path c m
   | None => normal_path c m
   end.
